@@ -28,11 +28,13 @@ type Tables struct {
 	E5 []E5Row `json:"e5"`
 	// E2
 	E2 []E2Scope `json:"e2"`
+	// E7
+	E7 E7Spec `json:"e7"`
 }
 
 func LoadTables(dir string) (*Tables, error) {
 	t := &Tables{CommutativeCallees: map[string]string{}, RangeProps: map[string][]string{}, RangeExempt: map[string]string{}, SchedAllowed: map[string]string{}, Floors: map[string]int{}, FuncProps: map[string][]string{}}
-	for _, f := range []string{"e4.json", "e6.json", "e5.json", "e2.json"} {
+	for _, f := range []string{"e4.json", "e6.json", "e5.json", "e2.json", "e7.json"} {
 		path := filepath.Join(dir, f)
 		if _, err := os.Stat(path); err != nil {
 			continue
